@@ -13,5 +13,21 @@ CHECKS = {
         "ref": "DESIGN.md §3 C01", "note": TB,
         "technique": "explicit-state model checking: exhaustive input-universe enumeration against an explicit STG reference model",
     },
+    "C02": {
+        "text": "Every network of the enumerated universes is fully expanded on the real code by BFS, DFS and two node-by-node "
+                "orders (one with the percolated Petri net pre-computed, so both branches of the single-node expansion are "
+                "driven); the resulting node set, successor sets, per-edge motif sets and leaves are compared with the "
+                "succession diagram computed from its definition over all 3^n subspaces of the explicit state space.",
+        "ref": "DESIGN.md §3 C02", "note": TB,
+        "technique": "explicit-state model checking: exhaustive input-universe enumeration against a definitional reference diagram",
+    },
+    "C03": {
+        "text": "Network x strategy/option grid (15 complete variants), x every size limit at which 7 partial strategies stop "
+                "followed by both skip completions, x every diagram state reachable by plain-alphabet call histories up to a "
+                "depth bound followed by each resumable strategy: all executed on the real code, minimal trap spaces compared "
+                "as a multiset with the reference model's.",
+        "ref": "DESIGN.md §3 C03", "note": TB,
+        "technique": "explicit-state model checking: exhaustive enumeration of inputs, option grids, limit values and bounded call histories",
+    },
 }
 NOT_CLAIMED = {f"C{i:02d}": "not claimed yet: check under construction (see DESIGN.md §9 for the build order)" for i in range(1, 21)}
